@@ -67,13 +67,13 @@ def main():
     ap.add_argument("log"); ap.add_argument("--tests", required=True); ap.add_argument("--jobs", type=int, default=4); ap.add_argument("--only", default="")
     a = ap.parse_args()
     ms = [m for m in survivors(a.log) if a.only in m["file"]]
-    tests = a.tests.split(",")
+    tests = [l.strip() for l in open(a.tests[1:]) if l.strip() and not l.startswith("#")] if a.tests.startswith("@") else a.tests.split(",")
     tmp = tempfile.mkdtemp(prefix="qv-mkc-")
     try:
         objs = common_objects(tmp)
         with ThreadPoolExecutor(a.jobs) as ex:
             for m, res in ex.map(lambda m: run(m, tests, objs), ms):
-                print("%-14s %s:%d [%s]  %s  ->  %s" % (res.split(" ")[0], m["file"], m["line"], m["kind"], m["old"][:80], m["new"][:80]) + ("" if " " not in res else "   " + res.split(" ", 1)[1]))
+                print("%-14s %s:%d [%s]  %s  ->  %s" % (res.split(" ")[0], m["file"], m["line"], m["kind"], m["old"][:80], m["new"][:80]) + ("" if " " not in res else "   " + res.split(" ", 1)[1]), flush=True)
     finally:
         shutil.rmtree(tmp, ignore_errors=True)
     return 0
